@@ -203,7 +203,7 @@ def load_findings(pid: str):
     if os.path.exists(path):
         for line in open(path):
             line = line.strip()
-            if not line or line.startswith("#"):
+            if not line or line.startswith("#") or line.startswith("fixed:"):
                 continue
             e = json.loads(line)
             if e.get("property") == pid and e.get("status") == "open":
